@@ -2,6 +2,7 @@
 import json
 import os
 
+from .agree import agrees
 from .pool import dump_blocks, parse_block
 from .xl import MachineryError
 
@@ -33,6 +34,12 @@ def validate(run, events, module='Trace_Calls', cfg=None, name='trace', timeout=
     n_ok = 0
     for e, v, x in out:
         run.traces += 1
+        if v not in ('open', 'ok') and isinstance(x, dict) and x.get('t') in ('num', 'date') \
+                and isinstance(e.get('res'), dict) and e['res'].get('t') in ('num', 'float', 'date') \
+                and agrees(e['res'], x) is True:
+            # TLC compares rationals exactly; an observed double is compared with the expected rational numerically
+            # (the same tolerance as in the spec -> code direction), whatever fraction the projection chose for it
+            v = 'ok'
         if v == 'open':
             run.undetermined += 1
         elif v == 'ok':
